@@ -43,7 +43,7 @@ ASSUMPTIONS = [
 ]
 CLASSES = ["units_G/kg_based", "units_G/gm_based", "units_convert/roundtrip", "units_convert/transitive",
            "rotations/from_to_antiparallel", "rotations/from_to_near_antiparallel", "rotations/from_to_parallel",
-           "rotations/axis_angle_special", "rotations/to_new_axes_nonorth", "rotations/to_new_axes_default",
+           "rotations/axis_angle_special", "rotations/to_new_axes_nonorth", "rotations/to_new_axes_default", "rotations/to_new_axes_near_minus_z",
            "rotations/orbit", "rotations/compose", "rotations/sim", "frames/com_var1", "frames/com_var2",
            "frames/com_testparticle", "frames/com_massive_beyond_N_active", "frames/hel", "frames/arith"]
 
@@ -279,24 +279,28 @@ vec_axis = st.sampled_from([[1.0, 0, 0], [0, 1.0, 0], [0, 0, 1.0], [-1.0, 0, 0],
 vec_s = st.one_of(vec_generic, vec_axis, st.tuples(vec_generic, S.logfloats(1e-6, 1e6)).map(lambda t: [x * t[1] for x in t[0]]))
 angle_s = st.one_of(S.floats(-2 * PI, 2 * PI), st.sampled_from([0.0, PI, -PI, 2 * PI, PI / 2, 4 * PI, 1e-9, PI - 1e-9]),
                     S.floats(-20.0, 20.0))
-small = st.one_of(st.sampled_from([0.0, 1e-16, 1e-12, 1e-8, 1e-4]), S.logfloats(1e-17, 1e-2))
+small = st.one_of(st.sampled_from([0.0, 1e-16, 1e-12, 1e-8, 1e-4]), S.logfloats(1e-17, 1e-2), S.logfloats(1e-15, 1e-2))
 
 
 @st.composite
 def ctor_s(draw, allow_compose=True):
-    kind = draw(st.sampled_from(["axis_angle", "axis_angle", "from_to", "from_to", "from_to_anti", "from_to_par", "orbit",
-                                 "new_axes", "new_axes_default", "new_axes_nonorth", "quat"] + (["compose"] * 3 if allow_compose else [])))
+    kind = draw(st.sampled_from(["axis_angle", "axis_angle", "from_to", "from_to", "from_to_anti", "from_to_anti", "from_to_par", "orbit",
+                                 "new_axes", "new_axes_default", "new_axes_nonorth", "new_axes_near_minus_z", "quat"] + (["compose"] * 3 if allow_compose else [])))
     if kind == "axis_angle":
         return {"k": kind, "angle": draw(angle_s), "axis": draw(vec_s)}
     if kind == "from_to":
         return {"k": kind, "from": draw(vec_s), "to": draw(vec_s)}
     if kind == "from_to_anti":
         # to = -scale * from + perturbation orthogonal-ish; perturbation 0 -> exactly antiparallel
-        return {"k": kind, "from": draw(vec_s), "scale": draw(st.sampled_from([1.0, 1.0, 2.0, 0.5, 3.0])),
+        return {"k": kind, "from": draw(vec_s), "scale": draw(st.one_of(st.sampled_from([1.0, 1.0, 2.0, 0.5, 3.0]), S.logfloats(1e-6, 1e6))),
                 "pert": draw(small), "pdir": draw(vec_generic)}
     if kind == "from_to_par":
-        return {"k": kind, "from": draw(vec_s), "scale": draw(st.sampled_from([1.0, 2.0, 0.5])), "pert": draw(small),
-                "pdir": draw(vec_generic)}
+        return {"k": kind, "from": draw(vec_s), "scale": draw(st.one_of(st.sampled_from([1.0, 2.0, 0.5]), S.logfloats(1e-6, 1e6))),
+                "pert": draw(small), "pdir": draw(vec_generic)}
+    if kind == "new_axes_near_minus_z":
+        # newz = -z (or +z) tilted by delta towards a random azimuth, arbitrary length; newx anything not parallel
+        return {"k": kind, "delta": draw(small), "az": draw(angle_s), "sign": draw(st.sampled_from([-1.0, -1.0, 1.0])),
+                "sz": draw(S.logfloats(1e-3, 1e3)), "newx": draw(vec_generic), "default": draw(st.booleans())}
     if kind == "orbit":
         inc = draw(st.one_of(S.floats(0.0, PI), st.sampled_from([0.0, PI, PI / 2, 1e-9])))
         return {"k": kind, "Omega": draw(angle_s), "inc": inc, "omega": draw(angle_s)}
@@ -406,7 +410,9 @@ def build_rotation(ct, ctx, info):
             t = ct["to"]
         else:
             sgn = -1.0 if k == "from_to_anti" else 1.0
-            t = [sgn * ct["scale"] * x + ct["pert"] * vnorm(f) * y for x, y in zip(f, ct["pdir"])]
+            t = [sgn * ct["scale"] * x + ct["pert"] * ct["scale"] * vnorm(f) * y for x, y in zip(f, ct["pdir"])]
+            if vnorm(t) < 1e-3 * ct["scale"] * vnorm(f):
+                t = [sgn * ct["scale"] * x for x in f]          # never a (near-)zero vector
         fh = [mp.mpf(x) for x in f]
         th = [mp.mpf(x) for x in t]
         nf, nt = mp.sqrt(dot(fh, fh)), mp.sqrt(dot(th, th))
@@ -438,8 +444,16 @@ def build_rotation(ct, ctx, info):
         if ct["inc"] in (0.0, PI):
             info["special"] = True
         return q, M, 3.0 + abs(ct["Omega"]) + abs(ct["omega"]) + abs(ct["inc"])
-    if k in ("new_axes", "new_axes_default", "new_axes_nonorth"):
-        if k == "new_axes":
+    if k in ("new_axes", "new_axes_default", "new_axes_nonorth", "new_axes_near_minus_z"):
+        if k == "new_axes_near_minus_z":
+            d_ = ct["delta"]
+            newz = [ct["sz"] * math.sin(d_) * math.cos(ct["az"]), ct["sz"] * math.sin(d_) * math.sin(ct["az"]),
+                    ct["sz"] * ct["sign"] * math.cos(d_)]
+            newx = None if ct["default"] else list(ct["newx"])
+            if newx is not None and abs(newx[0]) + abs(newx[1]) < 1e-3:
+                newx[0] += 1.0                      # newx must not be parallel to newz
+            q = R.to_new_axes(newz=newz, newx=newx) if newx is not None else R.to_new_axes(newz=newz)
+        elif k == "new_axes":
             M = mp_axis_angle(ct["angle"], ct["axis"])
             newz = [float(x) * ct["sz"] for x in mat_vec(M, [0, 0, 1])]
             newx = [float(x) * ct["sx"] for x in mat_vec(M, [1, 0, 0])]
@@ -515,11 +529,9 @@ def check_rotation(q, M, fac, info, ct, ctx):
     if info.get("from_to"):
         fh, th = info["fh"], info["th"]
         img = q_rotate_exact(qt(q), [float(x) for x in fh])
-        # nearly antiparallel vectors: the rotation is underdetermined to eps/|f+t| (documented in the source)
-        amp = 1.0 / max(info["hl"], 1e-300) if info["hl"] < 1.0 else 1.0
-        if info["exact_anti"]:
-            amp = 1.0
-        tol = K * EPS * min(amp, 1e30)
+        # nearly antiparallel vectors: the *axis* is underdetermined (to eps/|f+t|), the image of f is not - any rotation
+        # taking f^ to t^ will do, and it has to do that to rounding like everywhere else
+        tol = K * EPS
         err = float(mp.sqrt(sum((mp.mpf(float(a_)) - b_) ** 2 for a_, b_ in zip(img, th))))
         ctx.stat_max("from_to_err_over_tol", err / tol)
         if err > tol:
@@ -554,10 +566,13 @@ def check_rotation(q, M, fac, info, ct, ctx):
                 xh = [x / pl for x in px]
             cond = float(mp.sqrt(dot(nx, nx)) / pl) if pl > 0 else 1.0
         zi = q_rotate_exact(qt(q), [float(x) for x in zh])
-        # the construction is two from_to rotations: each underdetermined to eps/|f+t| when nearly antiparallel
+        # newz nearly opposite to z: the intermediate rotation is underdetermined about z, but the images of newz and of
+        # the perpendicular part of newx are determined and must be accurate to rounding
         d1 = float(mp.sqrt(sum((a_ + b_) ** 2 for a_, b_ in zip(zh, [0, 0, 1]))))
-        amp = 1.0 if (d1 > 1e-3 or d1 == 0.0) else 1.0 / d1
-        tol = K * EPS * amp * 4
+        if d1 < 1e-3:
+            ctx.cls("to_new_axes_near_minus_z")
+            info["special"] = True
+        tol = K * EPS * 4
         err = vnorm([float(zi[0]), float(zi[1]), float(zi[2]) - 1.0])
         if xh is not None:
             # image of xh under the minimal rotation zh -> z decides how close the second from_to is to antiparallel
@@ -570,19 +585,9 @@ def check_rotation(q, M, fac, info, ct, ctx):
         if err > tol:
             raise Violation("to_new_axes: newz/|newz| is mapped to %r, not to z (error %.3e, allowed %.3e)"
                             % ([float(x) for x in zi], err, tol), newz=info["newz"], newx=info["newx"], q=qt(q))
-        # x: generic when the intermediate x is not nearly opposite to +x; we cannot know the intermediate exactly when
-        # d1 is small, so assert x only in the generic regime or for axis-aligned exact inputs
-        exact_inputs = all(float(x) == int(float(x)) for x in info["newz"]) and (info["newx"] is None or all(float(x) == int(float(x)) for x in info["newx"]))
-        if xh is not None and (d1 > 1e-3 or exact_inputs):
-            tolx = K * EPS * 4 * cond * (amp if not exact_inputs else 1.0)
-            # the second rotation is itself nearly antiparallel when the image of x under the first one is close to -x:
-            # allow eps/|x' + x|, bounded below through the result itself (errx ~ that amplification)
-            if not exact_inputs:
-                zrot = mp_from_to_min(zh)
-                x1 = mat_vec(zrot, xh)
-                d2 = float(mp.sqrt((x1[0] + 1) ** 2 + x1[1] ** 2 + x1[2] ** 2))
-                if d2 < 1e-3:
-                    tolx = tolx / max(d2, 1e-300)
+        # cond: taking the perpendicular part of newx loses |newx|/|newx_perp|
+        if xh is not None:
+            tolx = K * EPS * 4 * cond
             ctx.stat_max("new_axes_x_err_over_tol", errx / tolx)
             if errx > tolx:
                 raise Violation("to_new_axes: the component of newx perpendicular to newz is mapped to %r, not to x "
